@@ -1176,6 +1176,25 @@ def _simplify(t, ctor=None):
     return subst(t, r)
 
 
+def _closure_capture_types(prog, cid):
+    cache = prog.__dict__.setdefault("_capture_types", {})
+    if not cache:
+        for g in prog.fns.values():
+            if not g.body:
+                continue
+            for b in g.body["blocks"]:
+                for s_ in b["s"]:
+                    rv = s_.get("rv") or {}
+                    if s_["k"] == "assign" and rv.get("k") == "agg" and rv.get("agg") == "closure" and rv.get("closure"):
+                        tys = []
+                        for o in rv["ops"]:
+                            pl_ = o.get("move") or o.get("copy")
+                            tys.append(_place_ty(g.body, pl_, None) if pl_ is not None and not pl_["p"] else None)
+                        cache[rv["closure"]] = tys
+        cache.setdefault("", [])
+    return cache.get(cid)
+
+
 def _place_ty(body, pl, prog=None):
     ty = body["locals"][pl["l"]]["ty"]
     for e in pl["p"]:
@@ -1191,6 +1210,10 @@ def _place_ty(body, pl, prog=None):
                 ty = e["ty"]
             elif isinstance(ty, dict) and "tuple" in ty and e["f"] < len(ty["tuple"]):
                 ty = ty["tuple"][e["f"]]
+            elif isinstance(ty, dict) and "closure" in ty and prog is not None:
+                # a captured variable: its type is that of the value the creating aggregate stores at this position
+                tys = _closure_capture_types(prog, ty["closure"])
+                ty = tys[e["f"]] if tys and e["f"] < len(tys) else None
             elif isinstance(ty, dict) and "adt" in ty and prog is not None and ty["adt"] in prog.adts:
                 a = prog.adts[ty["adt"]]
                 vs = a["variants"]
